@@ -229,6 +229,8 @@ def run(pid, tier):
             {'native': 'type1_move_le3 bytes [2, 0,1, 1,0, _,_, 1, 0,0, ...] = from {0:[1],1:[0]} to {0:[0]} -> to {0:[0,1],1:[0]}, from {}'},
         ] + [{'verus_function': f[0], 'mode': f[1], 'micros': f[3]} for f in sel[:3]],
     }, **extra_cov)
+    if tier == 'thorough' and not out.violations:
+        out.coverage['proof_stability_under_smt_seeds'] = {'index_unit.rs': common.stability_sweep(v['path'])}
     out.assumptions = list(TRUSTED) + ['Verus assumption scan: %d trusted declarations (listed under coverage.assumption_scan)' % len(v['assumption_scan'])]
     if pid in PARTIAL_NOTE:
         out.assumptions.append(PARTIAL_NOTE[pid])
